@@ -199,13 +199,14 @@ void chk_run_case(uint64_t seed, long c, bool is_sweep)
         if (c % 64 != 0) { engine_history_with_mutex(); return; }
         w_begin();
         W.use_mutex = true;
-        struct cat_command *a = w_group(5, false);
+        struct cat_command *a = w_group(6, false);
         a[0].name = xstr("+A"); a[0].run = h_run; a[0].read = h_read; a[0].write = h_write; a[0].test = h_test;
         { struct cat_variable *v = w_vars(&a[0], 2); v[0].type = CAT_VAR_UINT_DEC; w_vdata(&v[0], 1); v[0].write = hv_write; v[0].read = hv_read; v[1].type = CAT_VAR_BUF_STRING; uint8_t *d = w_vdata(&v[1], 6); memcpy(d, "ab", 3); }
         a[1].name = xstr("+E"); { struct cat_variable *v = w_vars(&a[1], 1); v->type = CAT_VAR_NUM_HEX; v->name = "x"; uint8_t *d = w_vdata(v, 2); d[0] = 0x34; d[1] = 0x12; } a[1].description = xstr("ev");
         a[2].name = xstr("+H"); a[2].read = h_read; a[2].test = h_test;
         a[3].name = xstr("+F");                                  /* READ event fails at once */
-        a[4].name = xstr("D"); a[4].write = h_write; a[4].implicit_write = true;
+        a[4].name = xstr("+Z"); a[4].run = h_run; a[4].disable = true;      /* skipped by the command list (it is not the last entry) */
+        a[5].name = xstr("D"); a[5].write = h_write; a[5].implicit_write = true;
         bool shared = chance(50);
         w_buffers(shared ? 96 + rn(2) : 48, shared, 32);
         w_init(0);
